@@ -629,7 +629,7 @@ func parseStrace(path string, scen []straceScen) (map[int][]obsOp, error) {
 	defer f.Close()
 	res := map[int][]obsOp{}
 	pending := map[string]string{} // pid -> unfinished text
-	fds := map[int]string{}         // fd -> path
+	fds := map[int]string{}        // fd -> path
 	cur := -1
 	sc := bufio.NewScanner(f)
 	sc.Buffer(make([]byte, 1<<20), 1<<24)
@@ -799,20 +799,20 @@ func straceScenarios(root string) []straceScen {
 		m    map[string]string
 	}
 	sps := []sp{
-		{0, 1, map[string]string{M(1): "m"}},                                                                                       // first SetMeta: no CURRENT
-		{0, 2, map[string]string{M(1): "m", M(2): "m", "CURRENT": M(1) + "\n"}},                                                    // switch with backup
-		{0, 2, map[string]string{M(2): "m", "CURRENT": M(2) + "\n"}},                                                               // unchanged: nothing
-		{0, 7, map[string]string{M(7): "m", "CURRENT": "garbage", "CURRENT.bak": M(3) + "\n", "CURRENT.7": "torn"}},                // garbage backed up, pending file reused
-		{0, 1000000, map[string]string{M(5): "m", M(1000000): "m", "CURRENT": M(5) + "\n", "CURRENT.bak": M(4) + "\n"}},            // wide number, stale backup
-		{0, 3, map[string]string{M(3): "m", "CURRENT": ""}},                                                                        // empty CURRENT backed up
-		{1, 0, map[string]string{M(1): "m", M(2): "m", "CURRENT": M(1) + "\n", "CURRENT.2": M(2) + "\n"}},                          // pending newer: repair
-		{1, 0, map[string]string{M(1): "m", "CURRENT.bak": M(1) + "\n"}},                                                           // only the backup
-		{1, 0, map[string]string{M(4): "m", "CURRENT": M(4) + "\n", "CURRENT.1": M(1) + "\n", "CURRENT.3": "MANIF"}},               // stale + torn pending
-		{1, 0, map[string]string{M(4): "m", "CURRENT": "MANIF", "CURRENT.bak": M(4) + "\n"}},                                       // garbage CURRENT, good backup
-		{1, 0, map[string]string{M(4): "m", "CURRENT": M(4) + "\n"}},                                                               // clean: nothing
+		{0, 1, map[string]string{M(1): "m"}},                                                                                         // first SetMeta: no CURRENT
+		{0, 2, map[string]string{M(1): "m", M(2): "m", "CURRENT": M(1) + "\n"}},                                                      // switch with backup
+		{0, 2, map[string]string{M(2): "m", "CURRENT": M(2) + "\n"}},                                                                 // unchanged: nothing
+		{0, 7, map[string]string{M(7): "m", "CURRENT": "garbage", "CURRENT.bak": M(3) + "\n", "CURRENT.7": "torn"}},                  // garbage backed up, pending file reused
+		{0, 1000000, map[string]string{M(5): "m", M(1000000): "m", "CURRENT": M(5) + "\n", "CURRENT.bak": M(4) + "\n"}},              // wide number, stale backup
+		{0, 3, map[string]string{M(3): "m", "CURRENT": ""}},                                                                          // empty CURRENT backed up
+		{1, 0, map[string]string{M(1): "m", M(2): "m", "CURRENT": M(1) + "\n", "CURRENT.2": M(2) + "\n"}},                            // pending newer: repair
+		{1, 0, map[string]string{M(1): "m", "CURRENT.bak": M(1) + "\n"}},                                                             // only the backup
+		{1, 0, map[string]string{M(4): "m", "CURRENT": M(4) + "\n", "CURRENT.1": M(1) + "\n", "CURRENT.3": "MANIF"}},                 // stale + torn pending
+		{1, 0, map[string]string{M(4): "m", "CURRENT": "MANIF", "CURRENT.bak": M(4) + "\n"}},                                         // garbage CURRENT, good backup
+		{1, 0, map[string]string{M(4): "m", "CURRENT": M(4) + "\n"}},                                                                 // clean: nothing
 		{1, 0, map[string]string{M(4): "m", M(5): "m", "CURRENT": M(4) + "\n", "CURRENT.05": M(5) + "\n", "CURRENT.5": M(5) + "\n"}}, // duplicate numbers
 		{1, 0, map[string]string{M(4): "m", M(9): "m", "CURRENT": M(4) + "\n", "CURRENT.6": M(9) + "\n", "CURRENT.-2": M(4) + "\n"}}, // name/content numbers differ, negative
-		{1, 0, map[string]string{"CURRENT": M(4) + "\n", "CURRENT.8": "x"}},                                                        // nothing valid
+		{1, 0, map[string]string{"CURRENT": M(4) + "\n", "CURRENT.8": "x"}},                                                          // nothing valid
 	}
 	var out []straceScen
 	for i, s := range sps {
@@ -839,11 +839,11 @@ func crashScenarios(root string) []*crashScen {
 		{kind: 0, m0: 4, m1: 5, m: map[string]string{"LOCK": "", "LOG": "S", M(4): "m", M(5): "m", "CURRENT": M(4) + "\n", "CURRENT.bak": M(3) + "\n", "CURRENT.4": M(4) + "\n", "CURRENT.2": "MANIF"}},
 		{kind: 0, m0: 7, m1: 1000000, m: map[string]string{"LOCK": "", "LOG": "S", M(7): "m", M(1000000): "m", "000008.ldb": "t", "CURRENT": M(7) + "\n", "CURRENT.bak": "", "CURRENT.1000000": "MANIFEST-10"}},
 		// the repair inside a read-write GetMeta
-		{kind: 1, m0: 4, m1: 4, m: map[string]string{"LOCK": "", "LOG": "S", M(4): "m", "CURRENT": "MANIF", "CURRENT.bak": M(4) + "\n"}},                        // torn CURRENT, good backup
-		{kind: 1, m0: 4, m1: 4, m: map[string]string{"LOCK": "", "LOG": "S", M(4): "m", "CURRENT": M(6) + "\n", "CURRENT.bak": M(4) + "\n", "CURRENT.3": M(3) + "\n"}}, // dangling CURRENT, good backup
-		{kind: 1, m0: 1, m1: 2, m: map[string]string{"LOCK": "", "LOG": "S", M(1): "m", M(2): "m", "CURRENT": M(1) + "\n", "CURRENT.2": M(2) + "\n"}},              // pending newer: the switch is replayed
+		{kind: 1, m0: 4, m1: 4, m: map[string]string{"LOCK": "", "LOG": "S", M(4): "m", "CURRENT": "MANIF", "CURRENT.bak": M(4) + "\n"}},                                 // torn CURRENT, good backup
+		{kind: 1, m0: 4, m1: 4, m: map[string]string{"LOCK": "", "LOG": "S", M(4): "m", "CURRENT": M(6) + "\n", "CURRENT.bak": M(4) + "\n", "CURRENT.3": M(3) + "\n"}},   // dangling CURRENT, good backup
+		{kind: 1, m0: 1, m1: 2, m: map[string]string{"LOCK": "", "LOG": "S", M(1): "m", M(2): "m", "CURRENT": M(1) + "\n", "CURRENT.2": M(2) + "\n"}},                    // pending newer: the switch is replayed
 		{kind: 1, m0: 1, m1: 2, m: map[string]string{"LOCK": "", "LOG": "S", M(1): "m", M(2): "m", "CURRENT": "", "CURRENT.bak": M(1) + "\n", "CURRENT.2": M(2) + "\n"}}, // pending newer over an empty CURRENT
-		{kind: 1, m0: 4, m1: 4, m: map[string]string{"LOCK": "", "LOG": "S", M(4): "m", "CURRENT.bak": M(4) + "\n"}},                                             // only the backup
+		{kind: 1, m0: 4, m1: 4, m: map[string]string{"LOCK": "", "LOG": "S", M(4): "m", "CURRENT.bak": M(4) + "\n"}},                                                     // only the backup
 	}
 	for i, s := range scs {
 		for n, c := range s.m {
